@@ -86,10 +86,6 @@ def pars_term(c):
     return "(" + ", ".join(par_term(s, c['truncate'], l) for s, l in zip(ls, ll)) + ")"
 
 
-def empty_img(nd):
-    return "[]"
-
-
 # --------------------------------------------------------------------------
 # implementation side
 # --------------------------------------------------------------------------
@@ -361,6 +357,12 @@ def corpus():
     out.append(mk('bandpass', imp / 255., 1, 5, None, pt=False))
     out.append(mk('bandpass', ramp, 1, 5, None, pt=False))
     out.append(mk('bandpass', ramp, (0.5, 1.5), (3, 7), -5.0))
+    # default threshold of float images is 1/255: unclipped values 0.00388, 0.003884, ... straddle 1/256 and 1/255
+    row = np.zeros(66)
+    row[1:65:4] = [1.5 * (0.00388 + k * 4e-6) for k in range(16)]
+    out.append(mk('bandpass', np.vstack([row, 0 * row, row[::-1]]), 0.0, (1, 3), None, pt=False))
+    out.append(mk('bandpass', np.vstack([row, 0 * row, row[::-1]]).T, 0.0, (3, 1), None, pt=False, layout='F'))
+    out.append(mk('bandpass', np.stack([np.vstack([row[:34], row[32:]]), np.vstack([row[32:], row[:34]])]), 0.0, (1, 1, 3), None, pt=False))
     # borders: zeros outside for the Gaussian, edge replication for the box
     out.append(mk('bandpass', np.full((5, 6), 200.0), 1, 3, 0.0))
     out.append(mk('lowpass', np.full((5, 6), 200.0), 2, 3, 0.0))
@@ -457,7 +459,7 @@ def monitor(chk, c, ik, out, before_bytes):
     # transposition (all axes reversed) and, in 3-D, one random axis permutation
     perms = [tuple(range(nd))[::-1]]
     if nd == 3:
-        perms.append(c['_perm'])
+        perms.append(tuple(c.get('perm', (1, 2, 0))))
     for perm in perms:
         ls, ll = tup(c['lshort'], nd), tup(c['llong'], nd)
         c2 = dict(c, image=np.transpose(img, perm), lshort=tuple(ls[a] for a in perm), llong=tuple(ll[a] for a in perm))
@@ -512,7 +514,7 @@ def run_kernels(chk, rng, n):
         keep.append((s, t, w))
         prod = Fraction(s) * Fraction(t)
         chk.tally('kernel: truncate*sigma exactly k+1/2' if (prod * 2).denominator == 1 and prod.denominator == 2 else 'kernel: generic')
-    res = common.coq_eval_lists(chk.work, IMPORTS, 'check_any', terms, tag='kern', jobs=JOBS)
+    res = common.coq_eval_lists(chk.work, IMPORTS, 'check_any', terms, shard=max(4, len(terms) // JOBS + 1), tag='kern', jobs=JOBS)
     for (s, t, w), r in zip(keep, res):
         chk.count(('kernel', s, t), len(w) >= 3)
         if r != 0:
@@ -576,7 +578,7 @@ def run(chk):
     for c in cases:
         p = [0, 1, 2]
         rng.shuffle(p)
-        c['_perm'] = tuple(p)
+        c['perm'] = list(p)          # 3-D: the extra axis permutation tried by the transposition monitor
     evaluate(chk, cases)
     run_kernels(chk, rng, 60 if chk.tier == 'quick' else 600)
     chk.sample(jsonable(strip(cases[0])))
@@ -601,7 +603,6 @@ def replay(chk, path):
     r = json.load(open(path))['replay']
     if r.get('kind') == 'case':
         c = unjson(r['case'])
-        c['_perm'] = (1, 2, 0)
         evaluate(chk, [c])
         print('replay: %s shape=%r lshort=%r llong=%r threshold=%r truncate=%r -> implementation outcome %r, violations %d' % (
             c['kind'], c['image'].shape, c['lshort'], c['llong'], c['threshold'], c['truncate'], c['_impl'], len(chk.violations)))
